@@ -4,9 +4,11 @@ package disc
 
 import (
 	"bytes"
+	"crypto/x509"
 	"encoding/hex"
 	"encoding/json"
 	"fmt"
+	epb "github.com/google/gce-tcb-verifier/proto/endorsement"
 	"os"
 	"path/filepath"
 	"regexp"
@@ -75,6 +77,8 @@ type srcRow struct {
 	Getter   string   `json:"getter"`
 	Force    bool     `json:"force"`
 	Name     []string `json:"name"`
+	Supplied string   `json:"supplied"`
+	Meas     string   `json:"meas"`
 }
 
 type recGetter struct {
@@ -276,12 +280,28 @@ func blobName(b []byte) string {
 	return "other"
 }
 
+var tdxMrtdHex string
+
+func init() {
+	if m, err := rp.GetMaterial(); err == nil {
+		tdxMrtdHex = hex.EncodeToString(m.Mrtd)
+	}
+}
+
 func urlKind(u string) string {
 	switch {
 	case u == logURI:
 		return "uri_from_log"
 	case objRe.MatchString(u):
-		return "obj_full"
+		// whose measurement names the object: the supplied quote's (SNP measurement or TDX MRTD) or the
+		// local provider's
+		if strings.Contains(u, hex.EncodeToString(provMeas)) {
+			return "obj_full_provider"
+		}
+		if strings.Contains(u, hex.EncodeToString(quoteMeas)) || (tdxMrtdHex != "" && strings.Contains(u, tdxMrtdHex)) {
+			return "obj_full_quote"
+		}
+		return "obj_full_other"
 	case u == verify.GCETcbURL(""):
 		return "bucket_root"
 	}
@@ -324,6 +344,10 @@ func RunC16(run *vk.Run) {
 			return
 		}
 		r := c.Row
+		if r.Mode == "validator" {
+			checkValidator(run, em.Cases[i])
+			return
+		}
 		if r.Mode == "path" {
 			checkPath(run, tree, r.Name)
 			run.Case(string(em.Cases[i]), len(r.Name) > 1)
@@ -351,8 +375,19 @@ func RunC16(run *vk.Run) {
 			}
 		}
 		for _, u := range urls {
-			if k := urlKind(u); k != "obj_full" && k != "uri_from_log" {
+			if k := urlKind(u); !strings.HasPrefix(k, "obj_full") && k != "uri_from_log" {
 				run.Violation("fetch-without-measurement:"+k, fmt.Sprintf("a fetch was issued for %q, which is not derived from a full-length measurement: %+v", u, r), rep)
+			}
+		}
+		if r.Quote == "snp_extra" || r.Quote == "snp_noextra" || r.Quote == "report_only" || r.Quote == "tdx" {
+			// the supplied attestation carries a full-length measurement: it decides the object and the evidence
+			for _, u := range urls {
+				if k := urlKind(u); k == "obj_full_provider" || k == "obj_full_other" {
+					run.Violation("fetch-for-another-measurement", fmt.Sprintf("the supplied attestation names its own measurement, but the object of another measurement was requested (%s): %+v", u, r), rep)
+				}
+			}
+			if bytes.Equal(out, provBlob) {
+				run.Violation("supplied-attestation-ignored", fmt.Sprintf("the supplied attestation carries a measurement, but the local provider's certificate-table entry was returned: %+v", r), rep)
 			}
 		}
 		if r.Force && out != nil && !bytes.Equal(out, netBlob) {
@@ -475,4 +510,103 @@ func checkEvents(run *vk.Run) {
 		}
 		run.Case(fmt.Sprintf("events:%d", k), true)
 	}
+}
+
+// ---- the validator's own fetch ----
+var (
+	valOnce sync.Once
+	valEndo []byte
+	valRoot *x509.CertPool
+	valErr  error
+)
+
+// checkValidator runs one "validator" row: verify.SNPValidateFunc over an attestation whose
+// certificate table carries no GCE entry, with the endorsement supplied through the options, as the
+// blob argument, both, or not at all.
+func checkValidator(run *vk.Run, raw json.RawMessage) {
+	var c struct {
+		Row  srcRow   `json:"row"`
+		Out  string   `json:"out"`
+		Reqs []string `json:"reqs"`
+	}
+	if err := json.Unmarshal(raw, &c); err != nil {
+		run.Infra(err)
+		return
+	}
+	valOnce.Do(func() {
+		m, err := rp.GetMaterial()
+		if err != nil {
+			valErr = err
+			return
+		}
+		doc := rp.GoldenSpec{Snp: map[uint32][]byte{1: quoteMeas}, Digest: rp.Meas("digest"), Timestamp: time.Date(2025, 6, 1, 0, 0, 0, 0, time.UTC), ClSpec: 1, Cert: m.SignCert.Raw, Svn: 1}.Proto()
+		valEndo, _ = proto.Marshal(rp.Endorse(doc, m.S))
+		valRoot = x509.NewCertPool()
+		valRoot.AddCert(m.RootCert)
+	})
+	if valErr != nil {
+		run.Infra(valErr)
+		return
+	}
+	r := c.Row
+	meas := quoteMeas
+	if r.Meas == "short" {
+		meas = quoteMeas[:20]
+	}
+	at := &spb.Attestation{Report: rp.Report(meas), CertificateChain: &spb.CertificateChain{}}
+	opts := &verify.Options{RootsOfTrust: valRoot, Now: time.Date(2026, 1, 1, 0, 0, 0, 0, time.UTC)}
+	var g *rp.MapGetter
+	if r.Getter != "none" {
+		g = &rp.MapGetter{}
+		if r.Getter == "ok" {
+			g.Any = valEndo
+		}
+		opts.Getter = g
+	}
+	var blob []byte
+	if r.Supplied == "opts" || r.Supplied == "both" {
+		e := &epb.VMLaunchEndorsement{}
+		proto.Unmarshal(valEndo, e)
+		opts.Endorsement = e
+	}
+	if r.Supplied == "blob" || r.Supplied == "both" {
+		blob = valEndo
+	}
+	var verr error
+	func() {
+		defer func() {
+			if p := recover(); p != nil {
+				verr = fmt.Errorf("PANIC: %v", p)
+			}
+		}()
+		verr = verify.SNPValidateFunc(opts)(at, blob)
+	}()
+	var urls, kinds []string
+	if g != nil {
+		urls = g.URLs
+	}
+	for _, u := range urls {
+		kinds = append(kinds, urlKind(u))
+	}
+	rep := map[string]any{"row": r, "error": fmt.Sprint(verr), "urls": urls}
+	if r.Supplied != "none" && len(urls) > 0 {
+		run.Violation("validator-network-despite-endorsement", fmt.Sprintf("the validator was given the endorsement (%s) and still accessed the network (%v)", r.Supplied, urls), rep)
+	}
+	if r.Supplied != "none" && r.Meas == "full" && verr != nil {
+		run.Violation("validator-needs-network", fmt.Sprintf("the validator was given a genuine endorsement (%s) for the report and fails with getter=%s: %v", r.Supplied, r.Getter, verr), rep)
+	}
+	for _, u := range urls {
+		if k := urlKind(u); !strings.HasPrefix(k, "obj_full") {
+			run.Violation("fetch-without-measurement:"+k, fmt.Sprintf("the validator fetched %q, which is not derived from a full-length measurement: %+v", u, r), rep)
+		}
+	}
+	got := "ok"
+	if verr != nil {
+		got = "err"
+	}
+	if got != c.Out || strings.Join(kinds, ",") != strings.Join(c.Reqs, ",") {
+		run.AddDrift(1)
+		fmt.Printf("DRIFT property=C16 validator row %+v: real %s %v (%v), Discovery.tla says %s %v\n", r, got, kinds, verr, c.Out, c.Reqs)
+	}
+	run.Case(string(raw), true)
 }
